@@ -49,7 +49,10 @@ def observable(d, fields=ALL_FIELDS):
         d = dict(d)
         d['rows'] = canon_cells(d['rows'])
     if d.get('err') is not None:
-        return {'err': d['err']}
+        e = d['err']
+        if isinstance(e, list) and e and e[0] == 'exception':
+            e = e[:2]          # host exception: class name only (the message is the host language's)
+        return {'err': e}
     return {k: d.get(k) for k in fields if k in d} if 'rows' in d else d
 
 
